@@ -180,7 +180,10 @@ theorem mkRatio_pos (n d : Int) (hn : 0 < n) (hd : 0 < d) (hn' : n ≤ imax.max)
     mkRatio n d = .ok ⟨n / ((Int.gcd n d : Nat) : Int), d / ((Int.gcd n d : Nat) : Int)⟩ := by
   have hg := gcd_pos_int n d hn
   have hgn := gcd_le_left_int n d hn
+  have hd0 : (d == 0) = false := by simpa using (by omega : d ≠ 0)
   unfold mkRatio
+  rw [hd0]
+  simp only [Bool.false_eq_true, if_false]
   rw [gcd_imax n d (by omega) (by omega) hn' hd']
   have hs : sign n * sign d = 1 := by unfold sign; rw [if_neg (by omega), if_neg (by omega)]; rfl
   have ha1 : absImpl n = .ok n := by unfold absImpl; rw [if_pos (by omega)]
@@ -192,23 +195,95 @@ theorem mkRatio_pos (n d : Int) (hn : 0 < n) (hd : 0 < d) (hn' : n ≤ imax.max)
   simp only [ha1, ha2, hs, i1, i2, bind, Except.bind, cdiv_pos _ _ _ hg]
   rw [Int.tdiv_eq_ediv_of_nonneg (by omega), Int.tdiv_eq_ediv_of_nonneg (by omega)]
 
+/-- a positive number divided by one of its positive divisors: positive, not larger, and the division is exact -/
+theorem ediv_dvd_facts (n g : Int) (hn : 0 < n) (hg : 0 < g) (hd : g ∣ n) : 0 < n / g ∧ n / g ≤ n ∧ n / g * g = n :=
+  ⟨Int.ediv_pos_of_pos_of_dvd hn (by omega) hd, Int.ediv_le_self g (by omega), Int.ediv_mul_cancel hd⟩
+
+/-- `ratio<n, d>::type`: computing the members again from the reduced arguments changes nothing -/
+theorem ratioType_pos (n d : Int) (hn : 0 < n) (hd : 0 < d) (hn' : n ≤ imax.max) (hd' : d ≤ imax.max) :
+    ratioType n d = .ok ⟨n / ((Int.gcd n d : Nat) : Int), d / ((Int.gcd n d : Nat) : Int)⟩ := by
+  have hg := gcd_pos_int n d hn
+  obtain ⟨a1, a2, _⟩ := ediv_dvd_facts n _ hn hg (Int.gcd_dvd_left n d)
+  obtain ⟨b1, b2, _⟩ := ediv_dvd_facts d _ hd hg (Int.gcd_dvd_right n d)
+  have h1 : Int.gcd (n / ((Int.gcd n d : Nat) : Int)) (d / ((Int.gcd n d : Nat) : Int)) = 1 :=
+    Int.gcd_div_gcd_div_gcd (Int.gcd_pos_of_ne_zero_left _ (by omega))
+  unfold ratioType
+  rw [mkRatio_pos n d hn hd hn' hd']
+  simp only [bind, Except.bind]
+  rw [mkRatio_pos _ _ a1 b1 (by omega) (by omega), h1]
+  simp
+
 /-- numerator / denominator of `ratio_divide<p, q>` -/
 def cfN (p q : Ratio) : Int := (p.num * q.den) / ((Int.gcd (p.num * q.den) (p.den * q.num) : Nat) : Int)
 def cfD (p q : Ratio) : Int := (p.den * q.num) / ((Int.gcd (p.num * q.den) (p.den * q.num) : Nat) : Int)
 
+/-- cancelling a common positive factor first does not change the reduced fraction -/
+theorem ediv_gcd_scale (n d k : Int) (hk : 0 < k) :
+    (n * k) / ((Int.gcd (n * k) (d * k) : Nat) : Int) = n / ((Int.gcd n d : Nat) : Int) := by
+  rw [Int.gcd_mul_right]
+  have : ((Int.gcd n d * k.natAbs : Nat) : Int) = ((Int.gcd n d : Nat) : Int) * k := by
+    rw [Nat.cast_mul, Int.natAbs_of_nonneg (by omega)]
+  rw [this, Int.mul_ediv_mul_of_pos_left _ _ hk]
+
+/-- `ratio_divide<p, q>` (= `ratio_multiply_impl<p, ratio<q.den, q.num>>::type`, common factors cancelled before the
+    products are formed) is the quotient in lowest terms; no intermediate exceeds the unreduced products -/
 theorem ratioDivide_eq (p q : Ratio) (hp : PerOk p) (hq : PerOk q) (h : DivOk p q) :
     ratioDivide p q = .ok ⟨cfN p q, cfD p q⟩ := by
   obtain ⟨p1, p2, p3, p4⟩ := hp
   obtain ⟨q1, q2, q3, q4⟩ := hq
   obtain ⟨h1, h2⟩ := h
-  have hA : 0 < p.num * q.den := Int.mul_pos p1 q2
-  have hB : 0 < p.den * q.num := Int.mul_pos p2 q1
   have hmm := imax_max
+  -- ratio<q.den, q.num>
+  have hg := gcd_pos_int q.den q.num q2
+  obtain ⟨i1, i2, i3⟩ := ediv_dvd_facts q.den _ q2 hg (Int.gcd_dvd_left q.den q.num)
+  obtain ⟨j1, j2, j3⟩ := ediv_dvd_facts q.num _ q1 hg (Int.gcd_dvd_right q.den q.num)
+  have hq0 : (q.num == 0) = false := by simpa using (by omega : q.num ≠ 0)
   unfold ratioDivide
-  rw [imax_arith ((imax_inR _).mpr (by omega)), imax_arith ((imax_inR _).mpr (by omega))]
+  rw [hq0]
+  simp only [Bool.false_eq_true, if_false]
+  rw [mkRatio_pos q.den q.num q2 q1 q4 q3]
   simp only [bind, Except.bind]
-  rw [mkRatio_pos _ _ hA hB h1 h2]
-  rfl
+  generalize ((Int.gcd q.den q.num : Nat) : Int) = g at *
+  generalize hqd : q.den / g = qd at *
+  generalize hqn : q.num / g = qn at *
+  -- gcd1, gcd2 and the four quotients
+  have hg1 := gcd_pos_int p.num qn p1
+  have hg2 := gcd_pos_int qd p.den i1
+  obtain ⟨a1, a2, a3⟩ := ediv_dvd_facts p.num _ p1 hg1 (Int.gcd_dvd_left p.num qn)
+  obtain ⟨e1, e2, e3⟩ := ediv_dvd_facts qn _ j1 hg1 (Int.gcd_dvd_right p.num qn)
+  obtain ⟨b1, b2, b3⟩ := ediv_dvd_facts qd _ i1 hg2 (Int.gcd_dvd_left qd p.den)
+  obtain ⟨c1, c2, c3⟩ := ediv_dvd_facts p.den _ p2 hg2 (Int.gcd_dvd_right qd p.den)
+  unfold ratioMultiply
+  simp only
+  rw [gcd_imax p.num qn (by omega) (by omega) p3 (by omega), gcd_imax qd p.den (by omega) (by omega) (by omega) p4]
+  simp only [bind, Except.bind, cdiv_pos _ _ _ hg1, cdiv_pos _ _ _ hg2]
+  rw [Int.tdiv_eq_ediv_of_nonneg (by omega : 0 ≤ p.num), Int.tdiv_eq_ediv_of_nonneg (by omega : 0 ≤ qd),
+    Int.tdiv_eq_ediv_of_nonneg (by omega : 0 ≤ p.den), Int.tdiv_eq_ediv_of_nonneg (by omega : 0 ≤ qn)]
+  generalize ((Int.gcd p.num qn : Nat) : Int) = g1 at *
+  generalize ((Int.gcd qd p.den : Nat) : Int) = g2 at *
+  generalize ha : p.num / g1 = a at *
+  generalize hb : qd / g2 = b at *
+  generalize hc : p.den / g2 = c at *
+  generalize he : qn / g1 = e at *
+  -- the products are the unreduced products divided by k = g * g1 * g2
+  have hk : 0 < g * g1 * g2 := Int.mul_pos (Int.mul_pos hg hg1) hg2
+  have eA : p.num * q.den = (a * b) * (g * g1 * g2) := by rw [← a3, ← i3, ← b3]; ring
+  have eB : p.den * q.num = (c * e) * (g * g1 * g2) := by rw [← c3, ← j3, ← e3]; ring
+  have hab : 0 < a * b := Int.mul_pos a1 b1
+  have hce : 0 < c * e := Int.mul_pos c1 e1
+  have lab : a * b ≤ p.num * q.den := by
+    have : 1 * (a * b) ≤ (g * g1 * g2) * (a * b) := Int.mul_le_mul_of_nonneg_right (by omega) (by omega)
+    rw [eA]; linarith
+  have lce : c * e ≤ p.den * q.num := by
+    have : 1 * (c * e) ≤ (g * g1 * g2) * (c * e) := Int.mul_le_mul_of_nonneg_right (by omega) (by omega)
+    rw [eB]; linarith
+  rw [imax_arith ((imax_inR _).mpr (by omega)), imax_arith ((imax_inR _).mpr (by omega))]
+  simp only
+  rw [ratioType_pos _ _ hab hce (by omega) (by omega)]
+  unfold cfN cfD
+  rw [eA, eB, ediv_gcd_scale _ _ _ hk]
+  congr 2
+  rw [Int.gcd_comm (a * b * (g * g1 * g2)), ediv_gcd_scale _ _ _ hk, Int.gcd_comm]
 
 /-- cross-multiplied form of `cfN / cfD = (p.num * q.den) / (p.den * q.num)`; positivity; bounds -/
 theorem cf_facts (p q : Ratio) (hp : PerOk p) (hq : PerOk q) :
